@@ -43,9 +43,29 @@ Definition run_store (regx : registry) (env : senv) (v : val) : obs :=
 Definition run_case (regx : registry) (env : senv) (v : val) : obs :=
   if ty_eqb (ty_of v) t_checkpoint_ptr then run_store regx env v else run_with fixed regx env v.
 
+(* The property identifies nil and empty containers; so does the comparison: both sides are
+   brought to the form in which an empty slice / map is the nil one (types, nil pointers, nil
+   interfaces, lengths and every element stay as they are), then compared exactly. *)
+Fixpoint canon (v : val) : val :=
+  match v with
+  | VBase _ _ | VNamed _ _ _ | VNilPtr _ => v
+  | VStruct n fs => VStruct n (map (fun fv => (fst fv, canon (snd fv))) fs)
+  | VPtr w => VPtr (canon w)
+  | VSlice t None => v
+  | VSlice t (Some []) => VSlice t None
+  | VSlice t (Some es) => VSlice t (Some (map canon es))
+  | VMap k t None => v
+  | VMap k t (Some []) => VMap k t None
+  | VMap k t (Some kvs) => VMap k t (Some (map (fun kv => (canon (fst kv), canon (snd kv))) kvs))
+  | VIface it None => v
+  | VIface it (Some w) => VIface it (Some (canon w))
+  | VArray t es => VArray t (map canon es)
+  | VDef d w => VDef d (canon w)
+  end.
+
 Definition obs_eqb (a b : obs) : bool :=
   match a, b with
-  | OOk v, OOk w => val_eqb v w
+  | OOk v, OOk w => val_eqb (canon v) (canon w)
   | OEncErr, OEncErr => true
   | ODecErr, ODecErr => true
   | OPanic, OPanic => true
